@@ -66,9 +66,9 @@ def gen_input(rng):
     return G.gen_figure_spec(rng, nfig=(1, 3), color_pool=cp, rich=0.4 if colored else 0.0)
 
 
-def check_case(ctx, specs, td, repeat=None):
+def check_case(ctx, specs, td, repeat=None, form="str"):
     from rtflite.assemble import assemble_rtf
-    case = {"specs": [strip_meta(s) for s in specs], "order": repeat}
+    case = {"specs": [strip_meta(s) for s in specs], "order": repeat, "form": form}
     paths = []
     docs = []
     for k, spec in enumerate(specs):
@@ -104,8 +104,18 @@ def check_case(ctx, specs, td, repeat=None):
     mech = None
     if any(kinds[i] == "figure" and has_ct[i] for i in range(1, len(specs))):
         mech = "figure_input_with_colortbl_not_first"
+    # the file names as strings, as pathlib.Path objects, mixed, or as a tuple
+    import pathlib
+    arg = list(paths)
+    if form == "path":
+        arg = [pathlib.Path(p) for p in arg]
+    elif form == "mixed":
+        arg = [pathlib.Path(p) if i % 2 else p for i, p in enumerate(arg)]
+    elif form == "path_out":
+        arg, out = [pathlib.Path(p) for p in arg], pathlib.Path(out)
+    ctx.distinct("input_forms", form)
     try:
-        assemble_rtf(paths, out)
+        assemble_rtf(arg, out)
     except Exception as e:  # noqa
         ctx.violation(f"assemble_rtf raised {type(e).__name__}: {str(e)[:100]}", case, {"exc": repr(e)[:300]})
         return
@@ -188,7 +198,8 @@ def run_shard(desc, ctx):
                 # e.g. [A, B, A]: every input at least once, some again, any order
                 repeat = list(range(k)) + [rng.randrange(k) for _ in range(rng.randint(1, 2))]
                 rng.shuffle(repeat)
-            check_case(ctx, [gen_input(rng) for _ in range(k)], td, repeat)
+            check_case(ctx, [gen_input(rng) for _ in range(k)], td, repeat,
+                       form=rng.choice(["str", "str", "path", "mixed", "path_out"]))
         finally:
             shutil.rmtree(td, ignore_errors=True)
     td = tempfile.mkdtemp(prefix="rtfmon-c17-")
@@ -207,7 +218,7 @@ def replay(data, ctx):
                 if sp.get("kind") == "figure":
                     for f in sp["figure"]["files"]:
                         f.setdefault("_fmt", "png")
-            check_case(ctx, case["specs"], td, case.get("order"))
+            check_case(ctx, case["specs"], td, case.get("order"), form=case.get("form", "str"))
         else:
             degenerate(ctx, random.Random(0), td)
     finally:
